@@ -1,28 +1,12 @@
 #!/usr/bin/env python3
-"""Regenerates /verif/MANIFEST.json from the table below (single source of truth)."""
-import json, os
+"""Regenerates /verif/MANIFEST.json from tools/claims/<ID>.json (one file per claimed property:
+category, text, design_ref, note, technique) and tools/not_applicable.json."""
+import json, os, glob
 ROOT = os.path.dirname(os.path.dirname(os.path.abspath(__file__)))
 props = [json.loads(l) for l in open(os.path.join(ROOT, "properties.jsonl"))]
+CHECKS = {os.path.basename(f)[:-5]: json.load(open(f)) for f in glob.glob(os.path.join(ROOT, "tools", "claims", "C*.json"))}
+NA = json.load(open(os.path.join(ROOT, "tools", "not_applicable.json")))
 
-CHECKS = {
- "C03": dict(
-  category="model_checking",
-  text="TLC model-checks the L1 spec Bitset.tla (two bit sequences, every public operation as an action) and checks that "
-       "the block-level transcription of the code BitsetImpl.tla refines it and keeps unused bits zero, exhaustively for "
-       "small widths/sizes; the spec is bound to the code in both directions: every L1 transition out of representative "
-       "states at block width 8 and TLC simulation walks are replayed on real xdynamic_bitset/view objects, and seeded "
-       "random call sequences on uint8/16/32/64 blocks are recorded; every recorded step (result, bits, iteration, raw "
-       "blocks, count/any/all/none, ==, view guard memory) is validated by TLC against L1.",
-  design_ref="DESIGN.md section 6 (C03)",
-  note="Trusted: TLC, the L1 spec (guarded by its own TLC-checked laws), the harness projection through the public API. "
-       "Bounded: L1/L2 exhaustive only for W in {2,3}, <=4-7 bits; real-code coverage is per explored history, not all histories. "
-       "Moved-from objects, allocators, reserve/capacity are not modelled.",
-  technique="TLA+ L1/L2 specs model-checked with TLC + trace validation of recorded executions and replay of TLC-generated behaviours"),
-}
-
-NA = {
- "C19": "compile/link matrix over compilers, standards and flags: there is no state, transition or computable expected value to specify in TLA+ (DESIGN.md section 7)",
-}
 
 def main():
     checks, na = [], []
@@ -41,7 +25,7 @@ def main():
                 "level_note": c["note"],
                 "technique": c["technique"]})
         else:
-            na.append({"property_id": pid, "reason": NA.get(pid, "check not built yet in this round (DESIGN.md section 11 gives the order); not claimed")})
+            na.append({"property_id": pid, "reason": NA.get(pid, "check not built yet (DESIGN.md section 11 gives the order); not claimed")})
     m = {"version": 1,
          "setup_cmd": "./verif setup",
          "hooks": {"guard": "XTL_VERIF",
@@ -57,6 +41,7 @@ def main():
          "not_applicable": na}
     json.dump(m, open(os.path.join(ROOT, "MANIFEST.json"), "w"), indent=1)
     print("MANIFEST: %d checks, %d not_applicable" % (len(checks), len(na)))
+
 
 if __name__ == "__main__":
     main()
